@@ -179,7 +179,11 @@ func runNodes() {
 	}
 	now := base
 	cs.VerifSetNow(func() time.Time { return now })
-	c, _ := newClient(client.VerifMemConfig("/nonexistent/verif.yaml", "gw.test:443", "", "", nil), rec)
+	var recorder rtt.Recorder = rec
+	if len(os.Args) > 2 && os.Args[2] == "norecorder" { // a client built without a recorder: every node is unmeasured
+		recorder = nil
+	}
+	c, _ := newClient(client.VerifMemConfig("/nonexistent/verif.yaml", "gw.test:443", "", "", nil), recorder)
 	defer c.Close()
 	used := []string{}
 	verifkit.EachCase(func(i int, raw json.RawMessage) {
